@@ -13,6 +13,12 @@
 (*   PERM    any other errno: permanent                                    *)
 (*   dev only:  OPENFAIL (open returns -1), SHORT (read returns 1..31      *)
 (*   bytes: not an error, read again)                                      *)
+(*   getrandom / syscall only: PARTIAL (the call returns 1..31: fewer      *)
+(*   bytes than asked, not an error).  The property does not say what the  *)
+(*   source makes of it - the code takes it for success, asking again for  *)
+(*   the remainder would be as good - so the machine allows both: it may   *)
+(*   return 1 at once or go on calling (pc = "opt"); what it may never do  *)
+(*   is write outside the 32 bytes (the harness's guard bytes).            *)
 (*                                                                         *)
 (* Specification (C18): the source retries transient failures any number   *)
 (* of times; it returns 1 with exactly the OS bytes iff an OK arrives      *)
@@ -34,10 +40,11 @@ TrngStep(s, o) ==
     IF s.pc = "open"
     THEN IF o = "OPENFAIL" THEN [s EXCEPT !.pc = "done", !.res = 0, !.buf = "zero"]
          ELSE [s EXCEPT !.pc = "call", !.fds = 1]                        \* o = "FD"
-    ELSE IF s.pc = "call"
+    ELSE IF s.pc \in {"call", "opt"}
     THEN IF o = "OK" THEN [s EXCEPT !.pc = IF s.variant = "dev" THEN "close" ELSE "done", !.res = 1, !.buf = "os"]
          ELSE IF o \in Transient THEN s
          ELSE IF o = "SHORT" THEN [s EXCEPT !.buf = "partial"]
+         ELSE IF o = "PARTIAL" THEN [s EXCEPT !.pc = "opt", !.res = 1, !.buf = "partial"]
          ELSE [s EXCEPT !.pc = IF s.variant = "dev" THEN "close" ELSE "done", !.res = 0, !.buf = "zero"]   \* PERM
     ELSE IF s.pc = "close"
     THEN [s EXCEPT !.pc = "done", !.fds = 0]
@@ -47,12 +54,13 @@ TrngStep(s, o) ==
 NextCall(s) ==
     IF s.pc = "open" THEN "open"
     ELSE IF s.pc = "close" THEN "close"
-    ELSE IF s.pc = "call" THEN (IF s.variant = "dev" THEN "read" ELSE s.variant)
+    ELSE IF s.pc \in {"call", "opt"} THEN (IF s.variant = "dev" THEN "read" ELSE s.variant)
     ELSE "none"
 
 Outcomes(s) ==
     IF s.pc = "open" THEN {"FD", "OPENFAIL"}
     ELSE IF s.pc = "close" THEN {"CLOSED"}
     ELSE IF s.variant = "dev" THEN {"OK", "EINTR", "EAGAIN", "PERM", "SHORT"}
-    ELSE {"OK", "EINTR", "EAGAIN", "PERM"}
+    ELSE IF s.variant = "getentropy" THEN {"OK", "EINTR", "EAGAIN", "PERM"}
+    ELSE {"OK", "EINTR", "EAGAIN", "PERM", "PARTIAL"}
 =============================================================================
